@@ -36,7 +36,14 @@ RULE = ('D-run case = (object configs, thread programs of acquire/critical-secti
         'and must produce the same (thread, op) sequence, results, occupancy log and end state.  Exhaustive layer: ALL '
         'schedules of the implementation\'s decision tree (stateless DFS, preemption bound 2 quick / 3 thorough) for every '
         'pair of acquire flavours x same/different object x reentrant or not, 2 threads x 1 round; random layer: 2..3 (4) '
-        'threads, 1..2 (3) rounds, random schedules, sometimes faults.  F-run case = N free-running OS processes x rounds. '
+        'threads, 1..2 (3) rounds, random schedules, sometimes faults.  Also in every layer: a release() of a lock the '
+        'caller does not hold (a no-op by contract) issued by a third thread while another thread is in the middle of '
+        'acquire() on that object, and a holder that DROPS its lock object instead of releasing (del -> __del__ -> '
+        'release(force=True); model: CRel o true; only on objects no other thread uses, a fresh object takes its place) '
+        'against a parked or polling contender.  A run in which the model sees a thread release a lock that ANOTHER '
+        'thread holds is outside the contract and not judged for occupancy (kernel/table mismatches are always judged).  '
+        'F-run case = N free-running OS processes x rounds; mode forkhold = a holder that os.fork()s a do-nothing child '
+        'while inside must stay the holder (a second object of its process is refused until it releases). '
         'non-trivial (decided in Coq) = at least two different threads got inside / all process rounds completed.')
 EXHAUSTIVE_NOTE = ('all schedules with <= 2 (quick) / <= 3 (thorough) preemptions of 2 threads x 1 round for every flavour pair; '
                    'the schedule tree is enumerated on the implementation itself')
@@ -330,8 +337,9 @@ LEVEL_TEXT = ('FileLock is modelled as a small-step machine (one step per gated 
               'else ends a holder\'s tenure: it still owns the thread lock and its descriptor still carries the kernel lock), '
               'contract_static + mutex_for_contract_respecting_programs (the contract "a thread releases only a lock it holds, '
               'threads use objects of their own process" as a decidable predicate cfg_ok on programs; such programs never leave '
-              'the contract, so mutual exclusion holds with no hypothesis on the run), and mutex_refuted_outside_contract (the '
-              'contract is needed).  Tied to /repo by replaying, inside Coq, the exact schedules on which the real class was just '
+              'the contract, so mutual exclusion holds with no hypothesis on the run), mutex_refuted_outside_contract (the '
+              'contract is needed), and monitor_complete (the occupancy monitor Case_C02.ok accepts every trace the model can '
+              'produce within the contract, so it cannot raise a false alarm where implementation and model agree).  Tied to /repo by replaying, inside Coq, the exact schedules on which the real class was just '
               'run under gated threads (all schedules of 2 threads x 1 round up to a preemption bound, random beyond) and by '
               'multi-process marker-file runs.')
 LEVEL_NOTE = ('trusted: Coq kernel + vm_compute; no axioms (every theorem "Closed under the global context"); kernel flock '
